@@ -175,6 +175,63 @@ class Fn:
             self._cfg = CFG(self.d)
         return self._cfg
 
+    def tree_guards(self):
+        """(line, rendering) of every leaf statement of the structured body -> enclosing conditions
+        [('if', cond, polarity) | ('loop', cond) | ('switch', cond, case values or None)]"""
+        if getattr(self, '_tg', None) is not None:
+            return self._tg
+        out = {}
+        def rec(t, guards):
+            if isinstance(t, list):
+                for c in t:
+                    rec(c, guards)
+                return
+            if not isinstance(t, dict):
+                return
+            k = t.get('k')
+            if k == 'CompoundStmt':
+                rec(t.get('body'), guards)
+            elif k == 'IfStmt':
+                rec(t.get('then'), guards + [('if', t['cond'], True)])
+                rec(t.get('else'), guards + [('if', t['cond'], False)])
+            elif k in ('ForStmt', 'WhileStmt', 'DoStmt'):
+                if k == 'ForStmt':
+                    rec(t.get('init'), guards)
+                g2 = guards + ([('loop', t['cond'])] if t.get('cond') and k != 'DoStmt' else [])
+                rec(t.get('body'), g2)
+                if k == 'ForStmt' and t.get('inc'):
+                    out.setdefault((t['inc'].get('ln'), show(t['inc'])), g2)
+            elif k == 'SwitchStmt':
+                body = t.get('body')
+                items = body.get('body', []) if isinstance(body, dict) and body.get('k') == 'CompoundStmt' else [body]
+                cur = None
+                for it in items:
+                    x = it
+                    vals = None
+                    while isinstance(x, dict) and x.get('k') in ('CaseStmt', 'DefaultStmt'):
+                        vals = (vals or []) + ([x['value']] if x.get('k') == 'CaseStmt' and 'value' in x else ['default'])
+                        x = x.get('sub')
+                    if vals is not None:
+                        cur = vals
+                    rec(x, guards + [('switch', t['cond'], cur)])
+            elif k in ('CaseStmt', 'DefaultStmt', 'LabelStmt'):
+                rec(t.get('sub'), guards)
+            elif k == 'CXXTryStmt':
+                rec(t.get('body'), guards)
+                rec(t.get('handlers'), guards)
+            elif k in ('BreakStmt', 'ContinueStmt', 'GotoStmt', 'NullStmt'):
+                pass
+            else:
+                out.setdefault((t.get('ln'), show(t)), guards)
+        rec(self.tree, [])
+        self._tg = out
+        return out
+
+    def enclosing(self, st):
+        """enclosing structured conditions of a CFG statement (see tree_guards)"""
+        s = st['s']
+        return self.tree_guards().get((s.get('ln'), show(s)), [])
+
     def relfile(self):
         return self.file.replace(build.REPO + '/', '')
 
@@ -407,11 +464,24 @@ class CFG:
             st.extend(self.succ.get(n, []))
         return False
 
-    def stmts(self):
+    def stmts(self, conds=True):
+        """statement roots in block order; the terminator condition of a block is yielded last as a
+        pseudo statement {'loc', 's', 'is_cond'} so that calls and side effects inside conditions are seen"""
         for i in sorted(self.blocks, reverse=True):
             b = self.blocks[i]
             for j, st in enumerate(b['stmts']):
                 yield i, j, st
+            if conds and 'cond' in b:
+                yield i, len(b['stmts']), {'loc': b.get('cloc', '?'), 's': b['cond'], 'is_cond': True}
+
+    def exprs(self):
+        """every statement root and every terminator condition: (block, expr, loc)"""
+        for i in sorted(self.blocks, reverse=True):
+            b = self.blocks[i]
+            for st in b['stmts']:
+                yield i, st['s'], st['loc']
+            if 'cond' in b:
+                yield i, b['cond'], b.get('cloc', '?')
 
     def returns(self):
         """(block, idx, stmt) of every return statement"""
